@@ -116,6 +116,7 @@ fn main() {
             selftest::loghash(cfg, pos[2].parse().unwrap_or(0), pos[3].parse().unwrap_or(0), pos[4].parse().unwrap_or(1))
         }
         Some("realtz") => selftest::realtz(&pos[1..]),
+        Some("dump-model-cases") => check05::dump_model_cases(opts.seed, pos.get(1).and_then(|s| s.parse().ok()).unwrap_or(200)),
         Some("selftest") => match pos.get(1).map(|s| s.as_str()) {
             Some("determinism") => selftest::determinism(pos.get(2).and_then(|s| s.parse().ok()).unwrap_or(24)),
             Some("stub-fidelity") => selftest::stub_fidelity(),
